@@ -48,7 +48,8 @@ class QueryPlanner:
         # allow to select from mindsdb namespace
         _projects.add('mindsdb')
 
-        self.default_namespace = default_namespace
+        # names of databases are in lower case
+        self.default_namespace = default_namespace.lower() if isinstance(default_namespace, str) else default_namespace
 
         # legacy parameter
         self.predictor_namespace = predictor_namespace.lower() if predictor_namespace else 'mindsdb'
@@ -77,10 +78,10 @@ class QueryPlanner:
                     else:
                         integration_name = self.predictor_namespace
                         predictor = dict(predictor, integration_name=integration_name)
-                    name = f'{integration_name}.{name}'.lower()
+                    name = f'{integration_name}.{name}'
                     _projects.add(integration_name.lower())
 
-                self.predictor_info[name] = predictor
+                self.predictor_info[name.lower()] = predictor
 
         self.projects = list(_projects)
         self.databases = list(self.integrations.keys()) + self.projects
@@ -157,7 +158,7 @@ class QueryPlanner:
 
     def get_integration_select_step(self, select):
         if isinstance(select.from_table, NativeQuery):
-            integration_name = select.from_table.integration.parts[-1]
+            integration_name = select.from_table.integration.parts[-1].lower()
         else:
             integration_name, table = self.resolve_database_table(select.from_table)
 
